@@ -6,6 +6,7 @@ import Driver.Ops.Lifecycle
 import Driver.Ops.Matcher
 import Driver.Ops.Merge
 import Driver.Ops.Paths
+import Driver.Ops.Sqlite
 import Driver.Ops.TextFile
 import Driver.Ops.Tftp
 import Driver.Ops.Yaml
@@ -24,6 +25,7 @@ def allOps : List (String × Op) :=
   Driver.Matcher.ops ++
   Driver.Merge.ops ++
   Driver.Paths.ops ++
+  Driver.Sqlite.ops ++
   Driver.TextFile.ops ++
   Driver.Tftp.ops ++
   Driver.Yaml.ops
